@@ -152,7 +152,11 @@ Theorem psf_legacy_refuted :
 Proof. exact psf_legacy_refuted_lemma. Qed.
 Print Assumptions psf_legacy_refuted.
 
-(* Ellipse.fit_image: every call returns what a fresh Ellipse (same geometry) returns for
+(* Ellipse.fit_image.  NOTE: fix C09-4 is NOT applied in /repo (the geometry persistence is the
+   recorded known finding Ellipse.fit_image:geometry-persists): the code in /repo is
+   [legacy = true], refuted by [ellipse_legacy_refuted] below and tied to the implementation
+   through [echeck true]; the positive theorem is about the proposed repair ([legacy = false]):
+   every call returns what a fresh Ellipse (same geometry) returns for
    the same linear / fix_* arguments, and the geometry configuration is unchanged after
    every call *)
 Theorem ellipse_calls_fresh :
@@ -176,21 +180,35 @@ Theorem grid_evals_fresh :
 Proof. exact grid_evals_fresh_lemma. Qed.
 Print Assumptions grid_evals_fresh.
 
-(* StarFinder: the kernel attribute is normalised in place by every call; PARTIAL: under the
-   hypothesis that the normalisation is idempotent (k/max(k) has max 1; observed bitwise by
-   the harness) every call returns what a fresh finder returns *)
-Theorem starfinder_calls_fresh_partial :
+(* StarFinder (repaired code, fix C10-3: the kernel attribute is only read, a normalised copy
+   is used): every call returns what a fresh finder returns and the attribute is unchanged *)
+Theorem starfinder_calls_fresh :
+  forall (K I R : Type) (norm : K -> K) (find : K -> I -> R) (k0 : K) (h : list I),
+    map fst (sfrun K I R norm find false k0 h) = map (fun i => snd (sfcall K I R norm find false k0 i)) h /\
+    Forall (fun rk => snd rk = k0) (sfrun K I R norm find false k0 h).
+Proof. exact starfinder_calls_fresh_lemma. Qed.
+Print Assumptions starfinder_calls_fresh.
+
+(* the code as found normalised the attribute in place on every call: fresh results only under
+   the hypothesis that the normalisation is idempotent (PARTIAL), and not without it *)
+Theorem starfinder_inplace_calls_fresh_partial :
   forall (K I R : Type) (norm : K -> K) (find : K -> I -> R),
     (forall k, norm (norm k) = norm k) ->
     forall (k0 : K) (h : list I),
-      map fst (sfrun K I R norm find k0 h) = map (fun i => snd (sfcall K I R norm find k0 i)) h.
-Proof. exact starfinder_calls_fresh_lemma. Qed.
-Print Assumptions starfinder_calls_fresh_partial.
+      map fst (sfrun K I R norm find true k0 h) = map (fun i => snd (sfcall K I R norm find true k0 i)) h.
+Proof. exact starfinder_inplace_calls_fresh_lemma. Qed.
+Print Assumptions starfinder_inplace_calls_fresh_partial.
+Theorem starfinder_inplace_refuted :
+  exists (k0 : Z) (h : list Z),
+    map fst (sfrun Z Z Z (fun k => k / 2)%Z (fun k i => k + i)%Z true k0 h)
+    <> map (fun i => snd (sfcall Z Z Z (fun k => k / 2)%Z (fun k i => k + i)%Z true k0 i)) h.
+Proof. exact starfinder_inplace_refuted_lemma. Qed.
+Print Assumptions starfinder_inplace_refuted.
 
 (* DAOStarFinder / IRAFStarFinder (configuration only read): full *)
 Theorem readonly_finder_calls_fresh :
   forall (K I R : Type) (find : K -> I -> R) (k0 : K) (h : list I),
-    map fst (sfrun K I R (fun k => k) find k0 h) = map (fun i => find k0 i) h.
+    map fst (sfrun K I R (fun k => k) find false k0 h) = map (fun i => find k0 i) h.
 Proof. exact readonly_finder_calls_fresh_lemma. Qed.
 Print Assumptions readonly_finder_calls_fresh.
 
@@ -220,7 +238,7 @@ Proof. exact pscheck_sound_lemma. Qed.
 Print Assumptions psf_check_sound.
 
 Theorem ellipse_check_sound :
-  forall (g0 : geo) (h : list eobsv), echeck g0 g0 h = true -> Forall eobs_ok h.
+  forall (g0 : geo) (h : list eobsv), echeck false g0 g0 h = true -> Forall eobs_ok h.
 Proof. exact echeck_sound_lemma. Qed.
 Print Assumptions ellipse_check_sound.
 
@@ -237,7 +255,7 @@ Example aperture_wf_example :
   Forall (wf_op term 2) [ARead term ABbox; ASet term 1 (Atom 7) true; ARead term ABbox; ASet term 0 (Atom 8) false;
                          ARead term (AMask 2)].
 Proof. repeat constructor. Qed.
-(* the idempotence premise of [starfinder_calls_fresh_partial] is satisfiable by a
+(* the idempotence premise of [starfinder_inplace_calls_fresh_partial] is satisfiable by a
    non-identity normalisation *)
 Example norm_idem_example : forall k : Z, Z.min (Z.min k 1) 1 = Z.min k 1.
 Proof. intros k. apply Z.min_l, Z.le_min_r. Qed.
